@@ -99,6 +99,11 @@ private:
 	// true while the server connection is being established (name lookup and
 	// connect). Requests arriving meanwhile wait in m_server_out_buffer
 	bool m_connecting = false;
+
+	// true once an error response is being sent to the client. The connection
+	// is closed when it has been written, nothing else the client sends is
+	// looked at
+	bool m_failed = false;
 };
 
 }
